@@ -10,14 +10,35 @@ sys.path.insert(0, os.path.join(HERE, "harness"))
 os.environ.setdefault("SCODA_REPO", "/repo")
 
 TECH = {
-    "proof": "machine-checked proof in Lean 4: theorems over the model for all inputs/histories (kernel-checked, #print axioms audited on every run) + checked tie to /repo on every run "
-             "(translators regenerate Gen/*.lean from the source and equality theorems tie them to the models; differential correspondence for the rest) + oracle search on the real "
-             "implementation for a replayable failing input",
+    "proof": "machine-checked proof in Lean 4: every clause listed in level_claimed.text is backed by kernel-checked theorems over the model (each theorem holds for all "
+             "inputs / histories that meet the hypotheses written in its statement — well-formedness and domain conditions of the property, and carve-outs that are exactly "
+             "the recorded known findings, each refuted by a `_statement_false` theorem replayed on the code); `#print axioms` and 'is a theorem' audited per cited name on "
+             "every run; the model is tied to /repo on every run: translators regenerate Gen/*.lean from the source and equality theorems tie the translations to the hand "
+             "models, a conventions fingerprint guards what the translators do not translate, a sampled differential correspondence covers the remaining functions; an "
+             "oracle search on the real implementation produces the replayable failing input",
     "translation_validation": "Lean 4 executable model tied to the code by differential correspondence; property theorems in progress (see evidence.coverage.clauses); oracle search for a replay",
 }
+TIE_NAMES = {"WrapTie": "Sequence wrapper", "ViewTie": "view-level methods", "ElemTie": "Bar/Track/Composition", "RelTie2": "normalise_relative + split",
+             "StaticTie": "sequences_split_bars / load / save / MidiFile.convert / mido parsers", "TokTie": "the tokeniser class",
+             "AbsTie2": "pairings / equals / cutoff / quantise / quantise_note_lengths", "UtilTie": "util.py numeric helpers", "StaticLink": "get_message_times_of_type link",
+             "C04d": "histories through the translated wrapper", "C20": "music_theory.py"}
+
+
+def per_property(mod, pid, known):
+    mods = mod.LEAN_MODULE if isinstance(mod.LEAN_MODULE, list) else [mod.LEAN_MODULE]
+    ties = [f"{m.split('.')[-1]} ({TIE_NAMES[m.split('.')[-1]]})" for m in mods if m.split(".")[-1] in TIE_NAMES]
+    thms = [x for _, t in mod.CLAUSES for x in ([t] if isinstance(t, str) else (t or []))]
+    partial = sorted({x for x in thms if x.endswith("_partial")})
+    refuted = sorted({x for x in thms if x.endswith("_statement_false")})
+    opened = [k["id"] for k in known if k["property"] == pid and k["status"] == "open"]
+    return (f" For {pid}: functions tied by translation through {', '.join(ties) if ties else 'no translation tie (hand model + correspondence only)'}; "
+            f"{len(set(thms))} theorems cited, of which {len(partial)} are `_partial` (proved on the complement of a finding) and {len(refuted)} are refutations of the "
+            f"unrestricted statement; open known findings: {', '.join(opened) if opened else 'none'}.")
 
 
 def main():
+    with open(os.path.join(HERE, "known_findings.json")) as f:
+        known = json.load(f)["findings"]
     checks = []
     for i in range(1, 21):
         pid = f"C{i:02d}"
@@ -26,7 +47,7 @@ def main():
         proved = [c for c, t in clauses if t]
         level = "proof" if len(proved) == len(clauses) else "translation_validation"
         text = (f"{len(proved)}/{len(clauses)} clauses of the property have a machine-checked Lean theorem"
-                + ("; all clauses proved for every input over the model, the model is tied to /repo on every run" if level == "proof" else
+                + ("; each theorem is stated with explicit hypotheses (see the clause texts and evidence.coverage.clauses); the model is tied to /repo on every run" if level == "proof" else
                    "; the remaining clauses are decided by model/implementation correspondence plus an independent oracle search, so the claim is translation validation, not proof")
                 + ". " + "; ".join(f"[{'thm ' + ','.join(x.split('.')[-1] for x in ([t] if isinstance(t, str) else t)) if t else 'no theorem yet'}] {c}" for c, t in clauses))
         checks.append({
@@ -38,10 +59,10 @@ def main():
             "engine": "lean4-model+correspondence",
             "level_claimed": {"category": level, "text": text, "design_ref": f"DESIGN.md §4 {pid}"},
             "level_note": "Trusted: Lean 4.33 kernel; axioms ⊆ {propext, Classical.choice, Quot.sound} (audited per theorem on every run); tools/gen_lean.py and the "
-                          "translators it calls (conventions and link tables: DESIGN 9.2c); harness/protocol.py + lean/Driver.lean; hand-written models of untranslated "
+                          "translators it calls (conventions: tools/conventions.py + DESIGN 9.2c; link tables Model/ViewLib, ElemLib, StaticLib, TokLib, UtilLib); the known-finding predicates and the oracles' domain skips (they decide VIOLATION / KNOWN-FINDING / not judged); harness/protocol.py + lean/Driver.lean; hand-written models of untranslated "
                           "functions are tied to the code only by the correspondence check, translated ones are proved equal to their models on every run. "
                           + " ".join(getattr(mod, "ASSUMPTIONS", [])),
-            "technique": TECH[level],
+            "technique": TECH[level] + per_property(mod, pid, known),
         })
     manifest = {
         "version": 1,
@@ -53,7 +74,7 @@ def main():
                      "kind_free_text": "Lean 4 models (SCoda/Model), generated tables and translated functions (SCoda/Gen), property theorems (SCoda/Props), line-protocol driver; Python harness runs the real implementation in-process"}],
         "checks": checks,
         "not_applicable": [],
-        "notes": "All 20 properties are claimed. Known findings (genuine defects recorded, not repaired) are in known_findings.json; fix: commits in /repo repair 13 defects (see DESIGN.md §1/§6).",
+        "notes": "All 20 properties are claimed. Known findings (genuine defects recorded, not repaired) are in known_findings.json; fix: commits in /repo repair 14 defects (see DESIGN.md §1/§6).",
     }
     with open(os.path.join(HERE, "MANIFEST.json"), "w") as f:
         json.dump(manifest, f, indent=1)
